@@ -641,7 +641,43 @@ func c18Container(c *Ctx) {
 		}
 		return 0, 0
 	}, Exit: func(b *ssa.BasicBlock) bool { return ExitOf(b) == ExitReturn }}.Count()
-	c.Check(iv.Is(1, 1), "O18.3", fk(nw)+":default-config-func-called-per-config", nw.Pos(), fmt.Sprintf("newValue.Call per new() = %v (want [1,1])", iv))
+	// ... or, where no default-config func is registered, a zero config made in this call with reflect.New / reflect.Zero
+	// (in new() or a helper it ends with); each returning path does exactly one of the two
+	isFreshZero := func(in ssa.Instruction) bool {
+		cl, ok := in.(*ssa.Call)
+		return ok && MatchCC(&cl.Call, Spec{"reflect", "", "New"}, Spec{"reflect", "", "Zero"})
+	}
+	hasZeroPath := false
+	for _, g := range FindFuncs(nw, 2, func(g *ssa.Function) bool { return PkgOf(g) == PkgOf(nw) && g != nw }) {
+		EachInstr(g, func(in ssa.Instruction) {
+			if isFreshZero(in) {
+				hasZeroPath = true
+			}
+		})
+	}
+	if !iv.Is(1, 1) && hasZeroPath {
+		// count: a Call of the registered func, or a call of the helper that creates the zero config
+		iv = PathQuery{Fn: nw, Weight: func(in ssa.Instruction) (int, int) {
+			if isCall(in) {
+				return 1, 1
+			}
+			if cl, ok := in.(*ssa.Call); ok {
+				if sc := cl.Call.StaticCallee(); sc != nil && sc != nw && PkgOf(sc) == PkgOf(nw) && len(sc.Blocks) > 0 {
+					zero := PathQuery{Fn: sc, Shallow: true, Weight: func(i2 ssa.Instruction) (int, int) {
+						if isFreshZero(i2) {
+							return 1, 1
+						}
+						return 0, 0
+					}, Exit: func(b *ssa.BasicBlock) bool { return ExitOf(b) == ExitReturn }}.Count()
+					if zero.Is(1, 1) {
+						return 1, 1
+					}
+				}
+			}
+			return 0, 0
+		}, Shallow: true, Exit: func(b *ssa.BasicBlock) bool { return ExitOf(b) == ExitReturn }}.Count()
+	}
+	c.Check(iv.Is(1, 1), "O18.3", fk(nw)+":default-config-func-called-per-config", nw.Pos(), fmt.Sprintf("newValue.Call (or a zero config made in the call) per new() = %v (want [1,1])", iv))
 	// no store of reflect values / configs into fields or globals anywhere in the package outside constructors of the container
 	sp := P.SSAPkg("core/plugin")
 	nStores := 0
@@ -682,7 +718,9 @@ func c18Container(c *Ctx) {
 	c.OK("O18.3", "core/plugin:no-config-cached-in-fields-or-globals", get.Pos(), fmt.Sprintf("%d stores of reflect.Value into fields/globals outside composite literals", nStores))
 	// the zero-config function: value created inside the MakeFunc closure
 	cl, _ := makeFuncClosure(ndc)
-	if cl == nil {
+	if cl == nil && hasZeroPath {
+		c.OK("O18.3", fk(nw)+":zero-config-created-per-call", nw.Pos(), "the default for constructors registered without a default-config func is created by new() itself with reflect.New / reflect.Zero in the call (counted above)")
+	} else if cl == nil {
 		c.Anchor("O18.3", "the reflect.MakeFunc closure of newDefaultConfigContainer")
 	} else {
 		// every element stored into the returned slice derives from a reflect.Zero/New call made in the closure
